@@ -4,6 +4,7 @@ import (
 	"bytes"
 	"encoding/binary"
 	"fmt"
+	"sync"
 
 	"verif/core"
 	"verif/ref"
@@ -174,7 +175,15 @@ func c11Decode(format string, data []byte, src ...int) (out []byte, err error, p
 }
 
 // c11Gen builds streams from operation sequences with exactly one format guard violated.
+var c11GenOnce sync.Once
+var c11GenMemo map[string][]byte
+
 func c11Gen() map[string][]byte {
+	c11GenOnce.Do(func() { c11GenMemo = c11GenBuild() })
+	return c11GenMemo
+}
+
+func c11GenBuild() map[string][]byte {
 	out := map[string][]byte{}
 	p := ref.Props{LC: 3, LP: 0, PB: 2}
 	base := []ref.Op{{Kind: ref.OpLit, Byte: 'a'}, {Kind: ref.OpLit, Byte: 'b'}, {Kind: ref.OpLit, Byte: 'c'}, {Kind: ref.OpMatch, Len: 4, Dist: 2}}
@@ -246,6 +255,33 @@ func c11Gen() map[string][]byte {
 					binary.LittleEndian.PutUint64(h2[5:], uint64(int64(len(win.Buf))+k))
 					out[fmt.Sprintf("lzma/%s/mode%d/size%+d", name, mode, k)] = append(h2, body...)
 				}
+			}
+		}
+	}
+	// (e) legal raw-chunk sequences at the limit of the reader's 4 KiB dictionary: a first chunk of
+	// capacity-1 / capacity / capacity+1 bytes followed by a second chunk with or without a
+	// dictionary reset of 1 / capacity / capacity+100 bytes (the window is exactly full, then rewound)
+	for _, a := range []int{4095, 4096, 4097} {
+		for _, k2 := range []ref.ChunkKind{ref.CRawReset, ref.CRaw} {
+			for _, b := range []int{1, 4096, 4196} {
+				g := ref.NewLZMA2Gen()
+				mk := func(n int, seed byte) []byte {
+					q := make([]byte, n)
+					for i := range q {
+						q[i] = seed + byte(i*7)
+					}
+					return q
+				}
+				if _, err := g.Add(ref.ChunkSpec{Kind: ref.CRawReset, Raw: mk(a, 1)}); err != nil {
+					continue
+				}
+				if _, err := g.Add(ref.ChunkSpec{Kind: k2, Raw: mk(b, 2)}); err != nil {
+					continue
+				}
+				g.Add(ref.ChunkSpec{Kind: ref.CEnd})
+				id := fmt.Sprintf("limit-raw-%d-then-kind%d-%d", a, int(k2), b)
+				out["lzma2/"+id] = g.Out
+				out["xz/"+id] = ref.EncodeXZStream(ref.CheckCRC32, []ref.XZBlockSpec{{LZMA2: g.Out, Plain: g.Plain, DictCode: 0}})
 			}
 		}
 	}
